@@ -542,7 +542,7 @@ func maxDepth(wt map[string][]byte) int {
 func writeIgnoreScenario(k *Walker) {
 	w := k.W
 	r := k.R
-	dirs := []string{"build", "out", "node_modules", "tmp d"}
+	dirs := []string{"build", "out", "node_modules", "tmp d", "a-rather-long-output-directory"}
 	exts := []string{".ext", ".log", ".o", ".tmp"}
 	d := dirs[r.IntN(len(dirs))]
 	e := exts[r.IntN(len(exts))]
@@ -580,7 +580,7 @@ func runC13(c *core.Ctx) {
 	n := c.Pick(500, 4000)
 	c.RunHistories(n, Registry["C13"].Mons, func(w *core.World) {
 		wts := map[string]int{
-			"edit-new": 12, "edit-mod": 12, "edit-rm": 6, "edit-rmdir": 3, "edit-same": 2, "edit-touch": 2,
+			"edit-new": 12, "edit-mod": 10, "edit-mod-samesize": 5, "edit-rm": 6, "edit-rmdir": 3, "edit-same": 2, "edit-touch": 2,
 			"add": 12, "rm": 3, "commit": 3, "status": 26, "restore": 2, "reset": 1, "add-all": 1,
 		}
 		k := NewWalker(w, gen.NameOpts{Space: true, NonASCII: w.Hist%3 == 0, Meta: w.Hist%4 == 0, MaxDepth: 4, N: 7}, wts)
